@@ -12,36 +12,90 @@ NA = {
     "C28": "LDE is FFT algebra (FFT-8 over a 5-bit field did not finish in 300 s) and a RowMatrix can only be built through the FFT/segment code (an all-concrete 4x3 instance exceeded 600 s of symbolic execution); the partition arithmetic shared with the verifier is decided under C01 (DESIGN.md section 4, C28)",
 }
 
-# id -> (built, technique, level text, level note, design ref)
+# properties for which the solver-based check designed in DESIGN.md has not been built and run clean in this round;
+# they are not claimed (no other technique is substituted)
+UNBUILT = {}
+
+KANI_NOTE = "Kani 0.68/CBMC 6.11 (cadical) and its Rust model, dev-profile semantics (overflow checks on); alloc::fmt::format stubbed; nothing is claimed outside the bounds named per harness in the evidence file"
+
+# id -> (technique, level text, level note, design ref)
 CHECKS = {
-    "C26": (True,
-            "bounded model checking (Kani/CBMC, SAT) of the real serde code with symbolic values and byte buffers",
-            "Every integer width and every usize value (so every length-encoding boundary) is a solver variable; round trip, exact "
-            "consumption and Err-not-panic on truncated/corrupted encodings are assertions decided by CBMC over the compiled code. "
-            "Bounded: containers <= 3 elements, encodings <= 12 bytes.",
-            "Kani 0.68/CBMC 6.11 and its Rust model (dev profile, overflow checks on); alloc::fmt::format stubbed; nothing claimed outside the stated sizes",
-            "DESIGN.md section 4 C26"),
-    "C21": (True,
-            "bounded model checking (Kani/CBMC, SAT) of the real Assertion code with symbolic columns, first steps, strides and trace lengths",
-            "overlaps_with is compared with the definition (common cell) for symbolic assertion pairs of every kind: a witness step when it "
-            "reports overlap, a universally quantified step when it does not; validation, step counts and apply() order against the "
-            "arithmetic progression. Trace lengths up to 2^32, strides up to 2^32, sequences of 2..8 values (16/64 thorough).",
-            "Kani/CBMC; assertion values are irrelevant to the clauses and fixed; prepare_assertions (private, B-tree based) is not executed",
-            "DESIGN.md section 4 C21"),
-    "C24": (True,
-            "bounded model checking (Kani/CBMC, SAT): pairwise injectivity of Context::to_elements over symbolic constructor arguments",
-            "Two symbolic, constructor-valid contexts are built through the public constructors and the real to_elements code is run on both; "
-            "equal seed vectors must imply equal listed parameters. Metadata lengths are enumerated per instance (0,1,2,15,16,...), bytes symbolic. "
-            "One known finding (trailing zero metadata bytes) is excluded by class and asserted by a witness harness.",
-            "Kani/CBMC; element type f128 (identity embedding of u32, structural equality); f64/f62 only through their modulus bytes",
-            "DESIGN.md section 4 C24"),
-    "C20": (True,
-            "bounded model checking (Kani/CBMC, SAT) of DefaultRandomCoin instantiated with nondeterministic / deterministic / ideal model hashers",
-            "Counts and ranges of integer draws and validity of drawn elements hold for every hash function (each hash output is a solver variable); "
-            "determinism for histories from a menu of 3 shapes with symbolic data; reseed sensitivity under a collision-free (lazily sampled injective) hasher; "
-            "the proof-of-work count equals the trailing zero bits of the first 8 digest bytes for every digest.",
-            "Kani/CBMC; model hashers with u64/u128 digests; injectivity of the ideal hasher is the collision-resistance assumption; histories <= 5 operations",
+    "C03": ("bounded model checking (Kani/CBMC) of the real FriVerifier and the provided channel methods over a harness channel, ideal (injective) model hasher, F17",
+            "The remainder, the commitment digest, the queried position and the adaptively chosen evaluation are solver variables; 'verify accepts => hash(remainder) == commitment' "
+            "and 'read_layer_queries returns exactly the committed rows or LayerCommitmentMismatch' are assertions over all of them. 0-layer FRI (4-coefficient remainder), 2 queried rows.",
+            KANI_NOTE + "; ideal hasher = lazily sampled injective function (collision resistance as an assumption); ideal vector commitment for layer openings; STARK trace/constraint rows only through C19's single-opening binding",
+            "DESIGN.md section 4 C03"),
+    "C05": ("bounded model checking (Kani/CBMC) of every component decoder on symbolic byte strings and of the size computations on decoded integers",
+            "For each decoder every byte string up to N bytes (N = 3..33, named per harness) is explored symbolically; any reachable panic, overflow, capacity overflow, out-of-bounds index or "
+            "unwinding failure is a violation. Post-parse arithmetic (partition exponent, Merkle depth byte, table limits, frame size, unique-query count) is checked for all byte values.",
+            KANI_NOTE + "; whole-proof decoding and verify() are outside; allocations that are merely huge (not overflowing) are not modelled; larger decoders are edge instances of the thorough tier",
+            "DESIGN.md section 4 C05"),
+    "C07": ("bounded model checking (Kani/CBMC): encode/decode round trip of each component over symbolic constructor arguments",
+            "Constructor arguments are solver variables restricted only by the constructors' own assertions; encode -> decode must give an equal value with no bytes left over. "
+            "TraceInfo (all widths/rands/exponents), ProofOptions (all partition settings), Commitments, OodFrame, BatchMerkleProof, digests, f128 elements; FriProof in the decode->encode direction (thorough).",
+            KANI_NOTE + "; one known finding (hash rate 256) asserted by a witness harness; whole proofs, 65535-byte metadata and 'same verdict after decoding' are outside",
+            "DESIGN.md section 4 C07"),
+    "C08": ("bounded model checking (Kani/CBMC): index arithmetic of prover layout vs. verifier lookup on symbolic data; remainder path of the real FriVerifier over F17",
+            "transpose_slice / fold_positions / map_positions_to_indexes agree for all evaluation vectors and position pairs (domain 16, folding 2 and 4, 1/2/4 partitions); the 0-layer verifier accepts "
+            "every polynomial of degree <= 3 committed by its reversed coefficients at any two positions.",
+            KANI_NOTE + "; the folding algebra (apply_drp vs. row interpolation), >= 1 FRI layers, real fields, serialization of FRI proofs are outside",
+            "DESIGN.md section 4 C08"),
+    "C09": ("bounded model checking (Kani/CBMC) of each rejection branch of the real FriVerifier (F17, 0-layer configuration, ideal hasher)",
+            "Substituted remainder (including the adaptive one), evaluation mismatch, over-long remainder, understated degree bound and position/evaluation length mismatch are each rejected for all symbolic data.",
+            KANI_NOTE + "; 'far from low degree' is probabilistic and outside; layer-opening rejection through the ideal vector commitment is under C03",
+            "DESIGN.md section 4 C09"),
+    "C10": ("MIR-to-SMT symbolic execution (mirsym: z3 integer encoding with explicit mod 2^k, product refinement, second-solver cross-check) of the f64/f62/f128 kernels + Kani for the multiplication-free operations",
+            "Inductive step per operation: from an arbitrary in-invariant internal representation the operation does not panic, returns an in-invariant value and satisfies its congruence "
+            "(f64: mont_red_cst, mul, new, as_int, add, sub, double, mul_small; f62: mul, add, sub, normalize, new, inv on both zero representations; f128: add, sub); eq/neg/add/sub/double bit-exactly by CBMC.",
+            "z3 (python bindings) primary verdict, /usr/bin/z3 4.8.12 and cvc5 as second opinion (a contradiction makes the obligation inconclusive); translator validated against the native functions on boundary and seeded vectors per run; "
+            "extension-field identities, exp/inv exponent chains and f128 mul are not covered in this round",
+            "DESIGN.md section 4 C10"),
+    "C12": ("bounded model checking (Kani/CBMC) of permute_index (all sizes) and of the serial FFT over F17 for sizes 2 and 4",
+            "Bit reversal for every power-of-two size up to 2^63; evaluate_poly / interpolate_poly / *_with_offset (blowup 2, offset GENERATOR) / infer_degree against naive evaluation for all coefficient vectors.",
+            KANI_NOTE + "; F17 model field as type parameter (generic algorithm code is winterfell's); sizes >= 8, extension fields, threads outside",
+            "DESIGN.md section 4 C12"),
+    "C13": ("bounded model checking (Kani/CBMC) of the generic polynomial helpers instantiated at F17 against schoolbook definitions",
+            "eval, eval_many, add, sub, mul, mul_by_scalar, div (monic linear divisor), syn_div, syn_div_in_place, syn_div_roots_in_place, degree_of, remove_leading_zeros, poly_from_roots, interpolate, interpolate_batch "
+            "for all coefficient vectors of length <= 4 under the documented preconditions.",
+            KANI_NOTE + "; interpolation points concrete (two triples); one known finding (x-coordinate zero) asserted by a witness harness; real fields outside",
+            "DESIGN.md section 4 C13"),
+    "C14": ("bounded model checking (Kani/CBMC) of the serial batch utilities over F17 and of the slice regrouping helpers on symbolic bytes",
+            "batch_inversion (lengths 0, 1, 3; zeros anywhere), power series with and without offset (n <= 4, n = 0 included), add_in_place, mul_acc, group/flatten/transpose element order.",
+            KANI_NOTE + "; the 1024-element batch boundary and all thread counts (feature concurrent) are outside",
+            "DESIGN.md section 4 C14"),
+    "C18": ("bounded model checking (Kani/CBMC) of MerkleTree build / prove / verify with a deterministic model hasher and symbolic digests",
+            "2, 4 and 8 leaves: root equals the recursive pairwise hash, every single opening (symbolic index) verifies, out-of-range indexes and bad leaf counts are errors, from_raw_parts agrees.",
+            KANI_NOTE + "; batch-proof clauses are NOT covered (B-tree bound code: edge attempts in the thorough tier only); parallel build outside",
+            "DESIGN.md section 4 C18"),
+    "C19": ("bounded model checking (Kani/CBMC) of MerkleTree::verify under an ideal (injective) model hasher",
+            "For 2 and 4 leaves (8 thorough): verify(root, i, leaf', path') accepts <=> leaf' and path' are exactly the tree's opening of i, for all symbolic leaves, indexes and paths; get_multiproof_domain_len for every depth byte.",
+            KANI_NOTE + "; batch verification rejection/robustness only as edge instances (B-tree bound); the depth-byte arithmetic is also checked under C05",
+            "DESIGN.md section 4 C19"),
+    "C20": ("bounded model checking (Kani/CBMC) of DefaultRandomCoin instantiated with nondeterministic / deterministic / ideal model hashers",
+            "Counts and ranges of integer draws and validity of drawn elements hold for every hash function (each hash output is a solver variable); determinism for histories from a menu of 3 shapes with symbolic data; "
+            "reseed sensitivity under a collision-free hasher; the proof-of-work count equals the trailing zero bits of the first 8 digest bytes for every digest.",
+            KANI_NOTE + "; model hashers with u64/u128 digests; injectivity of the ideal hasher is the collision-resistance assumption; histories <= 5 operations",
             "DESIGN.md section 4 C20"),
+    "C21": ("bounded model checking (Kani/CBMC) of the real Assertion code with symbolic columns, first steps, strides and trace lengths",
+            "overlaps_with is compared with the definition (common cell) for symbolic assertion pairs of every kind: a witness step when it reports overlap, a universally quantified step when it does not; "
+            "validation, step counts and apply() order against the arithmetic progression. Trace lengths up to 2^32, sequences of 2..8 values (16/64 thorough).",
+            KANI_NOTE + "; assertion values are irrelevant to the clauses and fixed; prepare_assertions (private, B-tree based) is not executed",
+            "DESIGN.md section 4 C21"),
+    "C24": ("bounded model checking (Kani/CBMC): pairwise injectivity of Context::to_elements over symbolic constructor arguments",
+            "Two symbolic, constructor-valid contexts are built through the public constructors and the real to_elements code is run on both; equal seed vectors must imply equal listed parameters. "
+            "Metadata lengths are enumerated per instance (0,1,2,15,16,17,...), bytes symbolic. One known finding (trailing zero metadata bytes) is excluded by class and asserted by a witness harness.",
+            KANI_NOTE + "; element type f128 (identity embedding of u32, structural equality); f64/f62 only through their modulus bytes",
+            "DESIGN.md section 4 C24"),
+    "C26": ("bounded model checking (Kani/CBMC) of the real serde code with symbolic values and byte buffers",
+            "Every integer width and every usize value (so every length-encoding boundary) is a solver variable; round trip, exact consumption and Err-not-panic on truncated/corrupted encodings are assertions "
+            "decided by CBMC over the compiled code. Containers <= 3 elements, encodings <= 12 bytes.",
+            KANI_NOTE,
+            "DESIGN.md section 4 C26"),
+    "C27": ("bounded model checking (Kani/CBMC): differential harness ReadAdapter vs. SliceReader over symbolic content, exhaustively enumerated chunk schedules and a menu of operation sequences",
+            "Every content length 0..=2 (3 for two sequences) x every composition of the length into read chunks x 6 operation sequences of 4-5 operations: all returned values and error kinds agree and nothing panics "
+            "(pointer checks on for the unsafe copies). Lengths 3..5 and symbolic slice lengths in the thorough tier.",
+            KANI_NOTE + "; the adapter code is expensive under CBMC (BufReader, dyn Read, RefCell), so the quick bound is small; Interrupted / failing readers are outside",
+            "DESIGN.md section 4 C27"),
 }
 
 
@@ -53,17 +107,17 @@ def main():
         if pid in NA:
             continue
         ent = CHECKS.get(pid)
-        if not ent or not ent[0]:
-            na.append({"property_id": pid, "reason": "check under construction in this round: not claimed until its harnesses run clean on the unchanged tree"})
+        if not ent:
+            na.append({"property_id": pid, "reason": UNBUILT.get(pid, "not claimed: the solver-based check designed for it in DESIGN.md section 4 was not built and run clean within this round (no other technique is substituted)")})
             continue
-        _, tech, text, note, ref = ent
+        tech, text, note, ref = ent
         checks.append({
             "property_id": pid,
             "quick_cmd": f"python3 run.py {pid} --tier quick",
             "thorough_cmd": f"python3 run.py {pid} --tier thorough",
             "evidence_file": f"/verif/evidence/{pid}.json",
             "replay_cmd_template": "python3 replay.py {path}",
-            "engine": "kani+mirsym",
+            "engine": "mirsym+kani" if pid in ("C10", "C11", "C16") else "kani",
             "level_claimed": {"category": "model_checking", "text": text, "design_ref": ref},
             "level_note": note,
             "technique": tech,
@@ -74,7 +128,7 @@ def main():
         "setup_cmd": "python3 setup.py",
         "hooks": {
             "guard": "winterfell_verif",
-            "enable": "no source hooks are in use: harnesses call the public API through path dependencies on /repo; the guard name is reserved (RUSTFLAGS=--cfg winterfell_verif)",
+            "enable": "no source hooks are in use: harnesses call the public API through path dependencies on /repo and mirsym reads private functions from the MIR dump; the guard name is reserved (RUSTFLAGS=--cfg winterfell_verif)",
             "baseline_off_cmd": "cd /repo && cargo test --workspace --no-fail-fast --offline",
             "source_commits": [],
             "add_only": True,
@@ -82,15 +136,15 @@ def main():
         "engines": [
             {"name": "kani", "path": "/verif/kani", "serves_properties": [c["property_id"] for c in checks],
              "kind_free_text": "Kani 0.68 / CBMC 6.11 bounded model checking of the compiled /repo crates (path dependencies, rebuilt from the working tree on every run)"},
-            {"name": "mirsym", "path": "/verif/mirsym", "serves_properties": ["C10", "C11", "C16"],
-             "kind_free_text": "MIR-to-SMT symbolic interpreter (nightly -Zunpretty=mir dump of /repo, z3 integer encoding with explicit mod 2^k, cvc5 cross-check)"},
+            {"name": "mirsym", "path": "/verif/mirsym", "serves_properties": ["C10"],
+             "kind_free_text": "MIR-to-SMT symbolic interpreter (nightly -Zunpretty=mir dump of a scratch copy of /repo on every run, z3 integer encoding with explicit mod 2^k, /usr/bin/z3 and cvc5 as second opinion, native replay tool)"},
         ],
         "checks": checks,
         "not_applicable": na,
-        "notes": "Exit codes of run.py: 0 held, 1 reproduced violation, 2 counterexample not reproduced natively, 3 broken check. See DESIGN.md.",
+        "notes": "Exit codes of run.py: 0 held (KNOWN-FINDING lines possible), 1 reproduced violation, 2 counterexample not reproduced natively, 3 broken check. See DESIGN.md.",
     }
     json.dump(man, open(os.path.join(ROOT, "MANIFEST.json"), "w"), indent=1)
-    print("wrote MANIFEST.json:", len(checks), "checks,", len(na), "not applicable / not yet claimed")
+    print("wrote MANIFEST.json:", len(checks), "checks,", len(na), "not applicable / not claimed")
 
 
 if __name__ == "__main__":
